@@ -178,22 +178,68 @@ class Parser:
             m["syncs"].append((clk, self.parse_stmt_block()))
 
     def parse_instance(self, m):
-        # opaque: cellname [#( ... )] instname ( ... );
+        # cellname [#( .P (value), ... )] instname ( .port (expr), ... );
+        # Recorded both as raw tokens (opaque) and structured: parameters keep their literal text (and the parsed expression when it
+        # is one), port connections are parsed expressions.
+        start = self.i
         cell = self.ident()
-        depth = 0
-        body = []
-        while True:
-            t = self.next()
-            body.append(t[1])
-            if t[1] == "(":
-                depth += 1
-            elif t[1] == ")":
-                depth -= 1
-            elif t[1] == ";" and depth == 0:
-                break
-            elif t[0] == "eof":
-                raise SyntaxError("vsim: unterminated instance")
-        m["instances"].append((cell, body))
+        rec = {"cell": cell, "name": None, "params": [], "ports": [], "structured": True}
+        try:
+            if self.accept("#"):
+                self.expect("(")
+                while not self.accept(")"):
+                    self.accept(",")
+                    self.expect(".")
+                    pname = self.ident()
+                    self.expect("(")
+                    j, depth, toks = self.i, 0, []
+                    while not (self.toks[j][1] == ")" and depth == 0 and self.toks[j][0] != "str"):
+                        if self.toks[j][0] == "eof":
+                            raise SyntaxError("vsim: unterminated parameter")
+                        if self.toks[j][0] != "str":
+                            depth += {"(": 1, ")": -1}.get(self.toks[j][1], 0)
+                        toks.append(self.toks[j])
+                        j += 1
+                    ast = None
+                    if toks and toks[0][0] != "str":
+                        sub = Parser.__new__(Parser)
+                        sub.toks, sub.i = toks + [("eof", "")], 0
+                        try:
+                            ast = sub.parse_expr()
+                            if sub.peek()[0] != "eof":
+                                ast = None
+                        except Exception:
+                            ast = None
+                    rec["params"].append((pname, "".join(t[1] for t in toks), toks[0][0] if toks else None, ast))
+                    self.i = j + 1
+            rec["name"] = self.ident()
+            self.expect("(")
+            while not self.accept(")"):
+                self.accept(",")
+                self.expect(".")
+                port = self.ident()
+                self.expect("(")
+                e = None if self.peek()[1] == ")" else self.parse_expr()
+                self.expect(")")
+                rec["ports"].append((port, e))
+            self.expect(";")
+        except (SyntaxError, AssertionError, IndexError):
+            # not the shape LiteX prints: keep it opaque
+            self.i = start
+            self.ident()
+            rec = {"cell": cell, "structured": False}
+            depth = 0
+            while True:
+                t = self.next()
+                if t[1] == "(":
+                    depth += 1
+                elif t[1] == ")":
+                    depth -= 1
+                elif t[1] == ";" and depth == 0:
+                    break
+                elif t[0] == "eof":
+                    raise SyntaxError("vsim: unterminated instance")
+        m["instances"].append(rec)
 
     # -- statements
     def parse_stmt_block(self):
